@@ -201,6 +201,65 @@ def check(c):
     # ---- cancel prunes queued inserts only on an exact match
     broadcast_prune_rules(c, 'C22')
 
+    # ---- tidying up after a clear/expire removes only *emptied* entries
+    # (None left by the clear, or a dict with nothing in it) -- never a
+    # setting that is still set to a falsy value ('' / False / 0 / [])
+    pr = c.func(BM, 'BroadcastMgr._prune')
+    dels = [n for n in c.idx.walk(pr.node) if isinstance(n, ast.Delete)] + [
+        n for n in c.calls(pr, 'pop') if isinstance(n.func, ast.Attribute)
+        and norm(n.func.value) not in ('stuff_stack',)]
+    c.floor('C22.prune-empty-only', 'deletions in _prune', len(dels), 1)
+    from sa.pat import show_fact
+
+    def empties(node):
+        """{'None', '{}'} subsets a test node admits, or None."""
+        if isinstance(node, ast.Compare) and len(node.ops) == 1:
+            op, r = node.ops[0], node.comparators[0]
+            if isinstance(op, ast.In) and isinstance(
+                    r, (ast.List, ast.Tuple, ast.Set)):
+                return {norm(e) for e in r.elts}
+            if isinstance(op, ast.Is) and norm(r) == 'None':
+                return {'None'}
+            if isinstance(op, ast.Eq) and norm(r) in ('{}', 'None'):
+                return {norm(r)}
+        return None
+    for d in dels:
+        tgt = d.targets[0] if isinstance(d, ast.Delete) else d
+        var = None
+        # the loop variable holding the value of the entry being deleted
+        cur = d
+        while id(cur) in c.idx.parent:
+            cur = c.idx.parent[id(cur)]
+            if isinstance(cur, ast.For) and isinstance(
+                    cur.target, ast.Tuple) and len(cur.target.elts) == 2 \
+                    and norm(cur.iter).endswith('.items()'):
+                var = norm(cur.target.elts[1])
+                break
+        ok = False
+        why = 'no test of the entry value guards the deletion'
+        for fact in c.facts(d, expand=False):
+            leaves = [fact] if fact[0] == 'atom' else (
+                fact[1] if fact[0] == 'or' else [])
+            got = set()
+            good = bool(leaves)
+            for lf in leaves:
+                e = empties(lf[1]) if lf[0] == 'atom' and lf[2] else None
+                if e is None or var is None or norm(
+                        lf[1].left) != var:
+                    good = False
+                    break
+                got |= e
+            if good and got <= {'None', '{}'}:
+                ok = True
+            elif fact[0] == 'atom' and var is not None and var in {
+                    x.id for x in ast.walk(fact[1])
+                    if isinstance(x, ast.Name)}:
+                why = (f'deletion guarded by `{show_fact(fact)}`: a setting '
+                       'whose value is falsy but set (\'\', False, 0, []) is '
+                       'dropped from memory with no DB delete and no report')
+        c.ob('C22.prune-empty-only', c.key(tgt, pr) + ' only for None / {}',
+             ok, c.where(tgt, pr), 'value in {None, {}}' if ok else why)
+
 
 VARIANTS = [
     ('no-db-on-clear', 'cylc/flow/broadcast_mgr.py',
@@ -264,4 +323,14 @@ VARIANTS = [
      '''                    if not all(insert[key] == broadcast_change[key]
                                for key in ("key", "point", "namespace")):''',
      None),
+    ('prune-falsy', 'cylc/flow/broadcast_mgr.py',
+     '                        if value in [None, {}]:',
+     '                        if not value:', 'C22.prune-empty-only'),
+    ('prune-all-leaves', 'cylc/flow/broadcast_mgr.py',
+     '                        if value in [None, {}]:',
+     '                        if value in [None, {}, ""]:',
+     'C22.prune-empty-only'),
+    ('benign-prune-spelling', 'cylc/flow/broadcast_mgr.py',
+     '                        if value in [None, {}]:',
+     '                        if value is None or value == {}:', None),
 ]
